@@ -2,7 +2,7 @@
 
 Oracle: the reference's total number of solutions n_ref (with multiplicities for copies of weighted levels of factors
 outside the crossing) and per-sequence multiplicity.  For IterateSATGen, RandomGen and IterateGen and a requested
-n in {1, n_ref-1, n_ref, n_ref+3} (chosen by the case's aux seed): len(result) == min(n, n_ref); no name-sequence occurs
+n in {1, n_ref-1, n_ref, n_ref+3} (chosen by the case's aux seed; small designs are additionally always exhausted): len(result) == min(n, n_ref); no name-sequence occurs
 more often than its reference multiplicity (identical printing only for copy choices); equality when exhausting.
 """
 import random
@@ -28,8 +28,13 @@ def judge(ctx):
         ctx.label("has-copies")
     ctx.nontrivial = n_ref >= 2
     ctx.sample = {"spec": spec, "n_ref": n_ref}
+    requests = []
     for g in ("IterateSATGen", "RandomGen", "IterateGen"):
         n = rng.choice(opts)
+        requests.append((g, n))
+        if n != n_ref + 3 and n_ref <= ctx.lim("always_exhaust"):
+            requests.append((g, n_ref + 3))          # exhausting always shows duplicates and over-counts
+    for g, n in requests:
         got, _ = ctx.synth(g, n, block=ctx.fresh_built().block)
         ctx.label("requested-%s" % ("more" if n > n_ref else "all" if n == n_ref else "fewer"))
         if len(got) != min(n, n_ref):
@@ -53,6 +58,6 @@ P = D.DesignProperty(
           "per strategy from {1, n_ref-1, n_ref, n_ref+3}; non-trivial = n_ref >= 2; class has-copies = some printing has multiplicity > 1; "
           "distinct = distinct spec JSON"),
     cfg_quick=CFG, n_quick=60, n_thorough=2000, case_limit=(15, 120),
-    limits={"max_T": {"quick": 7, "thorough": 9}, "max_seqs": {"quick": 200, "thorough": 1500}},
+    limits={"max_T": {"quick": 7, "thorough": 9}, "max_seqs": {"quick": 200, "thorough": 1500}, "always_exhaust": {"quick": 60, "thorough": 300}},
     assumptions=["vp/ref.py implements the documented semantics including multiplicities of weighted levels outside the crossing"])
 P.export(globals())
